@@ -11,7 +11,8 @@ Record c20_case := mkCase {
 Definition step_core (c : c20_case) (hist : list K) (o : tc_obs) : bool :=
   spec_core (c_w c) hist (o_total o) (o_items o) (o_common o) (o_uncommon o)
             (o_mc_all o) (o_mc_n o) (c_n c) (o_len o) (c_probe c) (o_probe o)
-            (o_keys o) (o_values o) (o_elems o).
+            (o_keys o) (o_values o) (o_elems o)
+  && spec_size_log (c_w c) hist (o_len o).
 
 Fixpoint walk (c : c20_case) (s : tc) (hist : list K) (steps : list (tc_op * tc_obs))
   : bool * bool * bool (* agree, core, size *) :=
